@@ -13,19 +13,22 @@ EXTENDS GraphRules
 
 Range(s) == {s[i] : i \in DOMAIN s}
 
+(* forces TLC to turn a lazy function closure into an explicit function *)
+Strict(f) == IF f = f THEN f ELSE f
+
 ToNodes(s) == IF s = <<>> THEN <<>>
-              ELSE [i \in 1..Len(s) |-> [name |-> s[i][1], attr |-> s[i][2]]]
+              ELSE Strict([i \in 1..Len(s) |-> [name |-> s[i][1], attr |-> s[i][2]]])
 
 ToEdgeArgs(s) == IF s = <<>> THEN <<>>
-                 ELSE [i \in 1..Len(s) |-> [u |-> s[i][1], v |-> s[i][2], w |-> s[i][3], a |-> s[i][4]]]
+                 ELSE Strict([i \in 1..Len(s) |-> [u |-> s[i][1], v |-> s[i][2], w |-> s[i][3], a |-> s[i][4]]])
 
 (* a flat edge list (stable by pair) -> the edges function of the abstract state *)
 ToEdges(s) ==
   IF s = <<>> THEN <<>>
   ELSE LET ks == {<<s[i][1], s[i][2]>> : i \in 1..Len(s)}
-       IN [k \in ks |->
+       IN Strict([k \in ks |->
              LET sub == SelectSeq(s, LAMBDA e : e[1] = k[1] /\ e[2] = k[2])
-             IN [j \in 1..Len(sub) |-> [w |-> sub[j][3], a |-> sub[j][4]]]]
+             IN Strict([j \in 1..Len(sub) |-> [w |-> sub[j][3], a |-> sub[j][4]]])])
 
 ToGraph(p) == [specs |-> p.specs, nodes |-> ToNodes(p.nodes), edges |-> ToEdges(p.edges)]
 
